@@ -53,6 +53,7 @@ func (m *SimMeta) inject(kind, site string) error {
 	m.nInj++
 	e := &InjErr{N: 10000 + m.nInj, Kind: kind, Site: site}
 	m.mu.Unlock()
+	m.r.noteMetaInj(e)
 	m.r.Logf("inject %v", e)
 	return e
 }
@@ -171,7 +172,7 @@ func (m *SimMeta) GetMaybeFilesForQuery(ctx context.Context, prefilter *bs.Query
 			dec := simrt.Gate("ms.yield", tag+" "+string(f.PointerBytes), ctx)
 			switch dec.Fault {
 			case FErr, FLateErr, FShort:
-				yield(bs.MaybeFile{}, m.inject("ms.yield", string(f.PointerBytes)))
+				yield(bs.MaybeFile{}, m.inject("ms.yield", tag+" "+string(f.PointerBytes)))
 				return
 			case FCtx:
 				return
@@ -250,6 +251,7 @@ func (m *GatedMeta) inject(kind, site string) error {
 	m.nInj++
 	e := &InjErr{N: 20000 + m.nInj, Kind: kind, Site: site}
 	m.mu.Unlock()
+	m.r.noteMetaInj(e)
 	m.r.Logf("inject %v", e)
 	return e
 }
@@ -311,7 +313,7 @@ func (m *GatedMeta) GetMaybeFilesForQuery(ctx context.Context, prefilter *bs.Que
 			dec := simrt.Gate("ms.yield", tag+" "+string(f.PointerBytes), ctx)
 			switch dec.Fault {
 			case FErr, FLateErr, FShort:
-				yield(bs.MaybeFile{}, m.inject("ms.yield", string(f.PointerBytes)))
+				yield(bs.MaybeFile{}, m.inject("ms.yield", tag+" "+string(f.PointerBytes)))
 				return
 			case FCtx:
 				return
